@@ -4,8 +4,9 @@
     them with the implementation as exact fractions.  Proved here: every ratio lies in [0,1], edge_contribution
     (computed by the code from run lengths) equals |T_uv| / |T|, node_presence, and the laws of the inter-event
     time histograms. *)
-From DynVerif Require Import Base Graph Derived Spec Stats StatsSpec.
-From DynVerif.proofs Require Import CoreInv C01Facts QueryFacts SnapInv DerivedFacts StatsFacts StatsSpecFacts.
+From DynVerif Require Import Base Graph Derived Spec Stats StatsSpec PySupportStats.
+From DynVerif.gen Require Import PyGenStats.
+From DynVerif.proofs Require Import CoreInv C01Facts QueryFacts SnapInv DerivedFacts StatsFacts StatsSpecFacts PyGenStatsEq.
 
 (** the numerators and denominators ARE the set sizes of the stream-graph definitions: T = snapshot ids, T_u = node_presence u,
     T_uv = instants of the pair (counted over T) *)
@@ -121,6 +122,43 @@ Theorem C17_spec_snapshot_density : forall cs t, no_loops cs ->
   snapshot_density g t = Some (sp_snapshot_density h (node_ids g) t).
 Proof. intros cs t H. exact (spec_snapshot_density cs H t). Qed.
 Print Assumptions C17_spec_snapshot_density.
+
+(** ** Source-level tie.  [py_*] (gen/PyGenStats.v) are GENERATED from the Python text of DynGraph.coverage, node_contribution, ...
+    by tools/py2gallina_stats.py (statement by statement: loops = fold_left over the iterated list, the assigned variables as
+    state); they are regenerated from /repo on every check run and these equalities re-checked (harness/sourcetie.py).  The
+    model functions the theorems above speak about ARE what the code's text says, for every graph state: *)
+Theorem C17_source_text : forall g u v, InvSnap g ->
+  py_coverage g = coverage g /\ py_uniformity g = uniformity g /\ py_density g = st_density g /\
+  py_node_contribution g u = node_contribution g u /\ py_edge_contribution g u v = edge_contribution g u v /\
+  py_node_pair_uniformity g u v = node_pair_uniformity g u v /\ py_pair_density g u v = pair_density g u v /\
+  py_node_density g u = node_density g u /\ py_node_presence g u = node_presence g u /\
+  py_avg_number_of_nodes g = avg_number_of_nodes g.
+Proof.
+  intros g u v HS. split; [apply py_coverage_eq|]. split; [apply py_uniformity_eq|]. split; [apply py_density_eq|].
+  split; [apply py_node_contribution_eq|]. split; [apply py_edge_contribution_eq|].
+  split; [apply py_node_pair_uniformity_eq; exact HS|]. split; [apply py_pair_density_eq|].
+  split; [apply py_node_density_eq; exact HS|]. split; [apply py_node_presence_eq; exact HS|apply py_avg_number_of_nodes_eq].
+Qed.
+Print Assumptions C17_source_text.
+(** ... and [InvSnap] holds in every reachable state (C04), so on reachable graphs the code's text = the stream-graph definitions *)
+Theorem C17_source_to_spec : forall cs,
+  let g := run_calls (G0 false) cs in let h := accepted (G0 false) cs in
+  py_coverage g = sp_coverage h (snap_keys g) (node_ids g) /\
+  py_uniformity g = sp_uniformity h (snap_keys g) (node_ids g) /\
+  py_density g = sp_density h (snap_keys g) (node_ids g) /\
+  (forall u, py_node_contribution g u = sp_node_contribution h (snap_keys g) u) /\
+  (forall u v, py_node_pair_uniformity g u v = sp_node_pair_uniformity h (snap_keys g) u v) /\
+  (forall u v, py_pair_density g u v = sp_pair_density h (snap_keys g) u v).
+Proof.
+  intros cs. cbv zeta.
+  assert (HS : InvSnap (run_calls (G0 false) cs)) by (apply (InvSnap_run cs (G0 false) []); [reflexivity|apply Inv_init|apply InvSnap_init]).
+  split; [rewrite py_coverage_eq; exact (spec_coverage cs)|]. split; [rewrite py_uniformity_eq; exact (spec_uniformity cs)|].
+  split; [rewrite py_density_eq; exact (spec_density cs)|].
+  split; [intros u; rewrite py_node_contribution_eq; exact (spec_node_contribution cs u)|].
+  split; [intros u v; rewrite (py_node_pair_uniformity_eq _ u v HS); exact (spec_node_pair_uniformity cs u v)|].
+  intros u v; rewrite py_pair_density_eq; exact (spec_pair_density cs u v).
+Qed.
+Print Assumptions C17_source_to_spec.
 
 (** inter-event time distributions (global / per node / in / out): total mass = #events - 1, weighted sum =
     last - first event time; each key's count is its number of occurrences among the gaps *)
